@@ -577,6 +577,9 @@ def rule_literal_arity(ck):
 
 
 def run(ck):
+    # map[key] / set[key] answer from the list of entries the B-tree walk collects (shared with C06)
+    from rules import C06
+    C06.rule_btree_walk(ck)
     rule_element_address(ck)
     rule_literal_arity(ck)
     rule_literal_lossless(ck)
